@@ -245,7 +245,16 @@ static void run_sinks(const std::string &fmt_text, Results &r, const A &...a)
         r.bytes[S_FORMAT].assign(s.c_str(), s.size());
     });
     VF_COUNT("ops");
-    if (!r.o[S_FORMAT].ok()) return;  // not accepted by ST::format: nothing to compare
+    if (!r.o[S_FORMAT].ok()) {
+        // not accepted by ST::format: nothing to compare - except that a unicode_error is only legitimate when the bytes the
+        // call produces are not valid UTF-8; the narrow stream sink (which does not validate) shows what they are
+        if (r.o[S_FORMAT].kind == vf::EX_UNICODE) {
+            std::ostringstream os;
+            r.o[S_OSTREAM] = vf::guard([&] { ST::writef(os, f, a...); });
+            r.bytes[S_OSTREAM] = os.str();
+        }
+        return;
+    }
     r.o[S_FORMAT_V] = vf::guard([&] {
         ST::string s = ST::format(ST::check_validity, f, a...);
         r.bytes[S_FORMAT_V].assign(s.c_str(), s.size());
@@ -329,6 +338,13 @@ static void compare(Ctx &c, const std::string &fmt, const Results &r)
 {
     if (!r.o[S_FORMAT].ok()) {
         vf::count_dyn(std::string("out:format-rejected:") + vf::outkind_name(r.o[S_FORMAT].kind));
+        std::u32string tmp32;
+        if (r.o[S_FORMAT].kind == vf::EX_UNICODE && r.o[S_OSTREAM].ok() && ref17::dec8(r.bytes[S_OSTREAM], tmp32)) {
+            VF_COUNT("validated");
+            fail(c, "format:throws-unicode_error-although-the-output-is-valid-UTF-8",
+                 strf("ST::format threw %s, but writef to a narrow stream wrote the valid UTF-8 text %s (%zu bytes) for the same call",
+                      r.o[S_FORMAT].str().c_str(), vf::vis(r.bytes[S_OSTREAM].substr(0, 60)).c_str(), r.bytes[S_OSTREAM].size()));
+        }
         return;
     }
     const std::string &R = r.bytes[S_FORMAT];
@@ -925,18 +941,22 @@ static void build(vf::Plan &plan, const vf::Opts &o)
         // buffer is decided by the pair (held, added), not by the total alone)
         const unsigned N1MAX = th ? 4200 : 1100;
         static const unsigned N2[6] = {1, 40, 257, 450, 513, 1030};
-        plan.stage(strf("format:two string arguments, first of every length 0..%u, second of {1,40,257,450,513,1030}, as {}{} and {}{>n2} padding, all sinks", N1MAX),
-                   (uint64_t)2 * 6 * (N1MAX + 1),
+        plan.stage(strf("format:two string arguments, first of every length 0..%u, second of {1,40,257,450,513,1030}, as {}{}, as {}{>n2} padding and followed by single-character pieces, all sinks", N1MAX),
+                   (uint64_t)3 * 6 * (N1MAX + 1),
                    [](uint64_t i, Ctx &c) {
-                       unsigned how = (unsigned)vf::take(i, 2), n2 = N2[vf::take(i, 6)];
+                       unsigned how = (unsigned)vf::take(i, 3), n2 = N2[vf::take(i, 6)];
                        std::string a((size_t)i, 'A');
                        if (how == 0) run_case(c, "{}{}", a, std::string(n2, 'b'));
-                       else run_case(c, strf("{}{>%u}", n2), a, 7);
+                       else if (how == 1) run_case(c, strf("{}{>%u}", n2), a, 7);
+                       else if (n2 == 1) run_case(c, "{}{}|{+}|{#o}|{_*2}", a, -5, 6, 8, 9);  // single-character pieces (sign, prefix, one pad) right behind it
+                       else return;
                        c.nontrivial();
                    },
                    [](uint64_t i) {
-                       unsigned how = (unsigned)vf::take(i, 2), n2 = N2[vf::take(i, 6)];
-                       return how == 0 ? strf("format {}{} with strings of %zu and %u bytes", (size_t)i, n2) : strf("format {}{>%u} with a string of %zu bytes and 7", n2, (size_t)i);
+                       unsigned how = (unsigned)vf::take(i, 3), n2 = N2[vf::take(i, 6)];
+                       return how == 0   ? strf("format {}{} with strings of %zu and %u bytes", (size_t)i, n2)
+                              : how == 1 ? strf("format {}{>%u} with a string of %zu bytes and 7", n2, (size_t)i)
+                                         : strf("format {}{}|{+}|{#o}|{_*2} with a string of %zu bytes and -5, 6, 8, 9", (size_t)i);
                    });
         const unsigned IMAX = th ? 4200 : 1100;
         plan.stage(strf("insert:long strings, a 2-/3-/4-byte character at every offset 0..%u, into 4 stream types", IMAX), (uint64_t)3 * (IMAX + 1),
